@@ -1618,3 +1618,66 @@ class sp_setitem(Contract):
         if len(calls) == 1:
             c = calls[0]
             yield "same-receiver-key-and-value", z3.BoolVal(bool(c["self"] is a["__self__"] and len(c["pos"]) == 2 and c["pos"][0] is a["key"] and c["pos"][1] is a["value"] and not c["kw"]))
+
+
+# ======================================================================= elemfun (C03)
+
+def _entry_function(S):
+    """A caller-supplied element function: applied to the value column it returns a column of the same shape whose
+    entry k is F(v_k) for one fixed real function F (precondition on the callback; recorded as an assumption)."""
+    F = z3.Function(T.fresh_name("elemF"), z3.RealSort(), z3.RealSort())
+
+    def fh(it, vals):
+        S.ctx.trusted.add("callback contract: function_handle(vals) applies one real function F to every entry of the value column")
+        v = N.snap(vals)
+        return Arr(v.shape, lambda *i: F(T.tz(T.as_real(v.fn(*i)))), "real")
+    fh._pyvc_native = True
+    return fh, F
+
+
+@register
+class sp_elemfun(Contract):
+    qual = Q + "elemfun"
+    props = ("C03", "C06")
+    doc = ("S.elemfun(f) for any real function f applied entry-wise to the stored values: the result has S's shape and stores, "
+           "in S's order, exactly the stored positions k of S with f(v_k) != 0, each with value f(v_k) -- well-formed and "
+           "zero-free; so Den(result) = f(Den(S)) on the stored positions of S (zeros of f dropped) and 0 elsewhere.")
+    inline = INLINE_CTOR
+
+    def setup(self, S, case):
+        A = sym_sptensor(S, "A")
+        fh, F = _entry_function(S)
+        return dict(__self__=A, function_handle=fh, __F__=F)
+
+    def ensures(self, S, a, ret):
+        A, F = a["__self__"], a["__F__"]
+        g = A.ghost
+        n = g["n"]
+        yield "returns-sptensor", _is_sptensor(ret)
+        if not _is_sptensor(ret):
+            return
+        yield "shape-kept", shape_equal(S, ret.fields["shape"], A.fields["shape"])
+        subs, vals, _ = result_parts(ret)
+        for c in wf_clauses(S, ret, g["srow"], g["N"]):
+            yield c
+        if subs.ndim != 2 or vals.ndim != 2:
+            return
+        m = subs.shape[0]
+        Fv = lambda k_: F(T.tz(A.fields["vals"].fn(k_, 0)))
+        t, k = z3.Int("ef!t"), z3.Int("ef!k")
+        gs = S.body_ghosts.get("nonzero2")
+        ra, rr = A.fields["subs"].rowfn, N.ensure_rows(S.ctx, subs)
+        if gs and not isinstance(m, int):
+            # np.where on the value column (n x 1): entry t of the row indices is sel(t); row k sits at rank pos(k, 0)
+            (K, ri, ci, pos) = gs[-1]
+            sel, rk = ri, (lambda k_: pos(k_, 0))
+            yield "count-of-kept-entries", S.eq(m, K)
+            yield "kept-entries-in-order-with-mapped-values", T.ForAll(
+                [t], z3.Implies(z3.And(0 <= t, T.tz(t < m)), z3.And(0 <= sel(t), sel(t) < n, rr(t) == ra(sel(t)), T.tz(vals.fn(t, 0)) == Fv(sel(t)), Fv(sel(t)) != 0)), [rr(t)])
+            yield "every-entry-with-non-zero-image-is-kept", T.ForAll(
+                [k], z3.Implies(z3.And(0 <= k, k < n, Fv(k) != 0), z3.And(0 <= rk(k), T.tz(rk(k) < m), rr(rk(k)) == ra(k), T.tz(vals.fn(rk(k), 0)) == Fv(k))), [ra(k)])
+        else:
+            # no entry survives: the result stores nothing
+            yield "nothing-stored", S.eq(m, 0)
+            yield "every-image-is-zero", T.ForAll([k], z3.Implies(z3.And(0 <= k, k < n), Fv(k) == 0))
+        yield "no-stored-zero", T.ForAll([t], z3.Implies(z3.And(0 <= t, T.tz(t < m)), T.tz(vals.fn(t, 0)) != 0))
